@@ -148,6 +148,24 @@ fn main() {
         // The two placeholder symbols ?/! are kept out of these contents (nothing is documented about
         // their case); they take part in the involution group below.
         seqs::<MDna>(ctx, |c| model::mdna().canon(c ^ 0b1111).unwrap(), |c| model::mdna().canon(c ^ 0b1111).unwrap(), |c| match c { 0b0110 => 0b1000, 0b1001 => 0b0001, c => c });
+        ctx.group("mdna/alternative-coded-gap-and-pad", |ctx| {
+            // gap and pad have two bit patterns each; sequences holding the alternative patterns (from a raw image
+            // or a bitwise union) must be masked position-wise like any other: gap and pad unchanged
+            let a = model::mdna();
+            for r in 0..ctx.n(300, 5000, 3) {
+                let n = 1 + ctx.rng.below(if ctx.lite { 20 } else { 40 });
+                let raw: Vec<u8> = (0..n).map(|i| match (i + r) % 4 { 0 => 0b0011, 1 => 0b0101, _ => *ctx.rng.pick(&[8u8, 4, 2, 1, 7, 11, 13, 14, 0, 15, 12, 10]) }).collect();
+                let words: Vec<usize> = model::pack_words(4, &raw).iter().map(|w| *w as usize).collect();
+                let Some(s) = Seq::<MDna>::from_raw(n, &words) else { continue };
+                ctx.eval();
+                let canon: Vec<u8> = raw.iter().map(|c| a.canon(*c).unwrap()).collect();
+                let want: Vec<u8> = canon.iter().map(|c| a.canon(c ^ 0b1111).unwrap()).collect();
+                let got = observe(|| (codes_of::<MDna>(&s.to_mask()), codes_of::<MDna>(&s.to_unmask()), codes_of::<MDna>(&s.to_mask().to_mask())));
+                check!(ctx, got == Ok((want.clone(), want.clone(), canon.clone())), "to_mask|mdna|alternative-coded-gap-or-pad".to_string(), "masking {:?} (holding alternative gap/pad patterns) gives {:?}, position-wise result is {:?}", a.text(&canon), got.as_ref().map(|g| a.text_lossy(&g.0)), a.text(&want));
+                ctx.nontrivial(fp(&[b"altgap", &raw]));
+            }
+            cell!(ctx, "mdna/alternative-coded-gap-and-pad");
+        });
         ctx.group("mdna/sequence-involution", |ctx| {
             let a = model::mdna();
             for _ in 0..ctx.n(300, 5000, 3) {
